@@ -646,7 +646,21 @@ def hist_line(h):
     return "%d %s" % (h[0], ";".join(h[1]))
 
 
-def run_impl(d, hists, timeout=900, extra_env=None, pre=None, cmd=None, addrs=None):
+def run_impl(d, hists, timeout=900, extra_env=None, pre=None, cmd=None, addrs=None, chunk=1500):
+    """run_impl_chunk over slices of at most `chunk` histories (one process each, `timeout` per process): the thorough tier's
+    12 000 histories must not share one time limit"""
+    res = []
+    for k in range(0, max(1, len(hists)), chunk):
+        part = hists[k:k + chunk]
+        sub = {} if addrs is not None else None
+        res += run_impl_chunk(d, part, timeout=timeout, extra_env=extra_env, pre=pre, cmd=cmd, addrs=sub)
+        if addrs is not None:
+            for i, v in sub.items():
+                addrs[k + i] = v
+    return res
+
+
+def run_impl_chunk(d, hists, timeout=900, extra_env=None, pre=None, cmd=None, addrs=None):
     """returns list (per history) of observation lists, or a string describing a crash for the history that died.
     cmd: the interpreter of the history language (default: chibi-scheme harness/c16_hist.scm; the layout family uses
     the C embedding harness/embed_c16.c); addrs: dict filled with history index -> {id: (heap, offset)} from its 'A' lines"""
@@ -803,6 +817,30 @@ def shrink(ctx, exe, d, h, sig, env, budget=40, cmd=None):
     return (ns, ops, kind)
 
 
+def explained_by_one_extra_collection(ctx, exe, h, io):
+    """A forced collection (CHIBI_VERIF_GC) at an arbitrary allocation is, for the property, a collection the history did not ask
+    for.  Most histories cannot tell; some can: the descriptor of a fileno object is released when its LAST PORT is finalised
+    (count reaches 0) even while the fileno object itself is still held, so a history that goes on using such a fileno (dup, dup2,
+    a new port) after dropping the port sees a different world depending on whether the collector has run in between.  Such
+    an outcome is not a violation if the MODEL produces exactly it for the same history with one more collection inserted at
+    some point; the number-level machine (NumOs.v, request nhist) is used because it also covers what the extra collection
+    may turn into an operation on a closed fileno.  Returns True when some insertion point explains the observations."""
+    ops = h[1]
+    reqs, drop = [], []
+    for k in range(len(ops) + 1):
+        reqs.append("nhist %d 20000 %s" % (h[0], ";".join(ops[:k] + ["G"] + ops[k:])))
+        drop.append(sum(1 for o in ops[:k] if o == "G" or o.startswith("Z,")))
+    for o, j in zip(ctx.run_model(exe, reqs), drop):
+        if not o.startswith("OK"):
+            continue
+        obs = o[3:].split("/") if o[3:] else []
+        if len(obs) != len(io) + 1:
+            continue
+        if first_mismatch(obs[:j] + obs[j + 1:], io) == []:
+            return True
+    return False
+
+
 def outer(ctx, exe, d, variant, hists, env=None, cmd=None, addrs=None):
     mobs = model_hist(ctx, exe, hists)
     iobs = run_impl(d, hists, extra_env=env, cmd=cmd, addrs=addrs)
@@ -819,6 +857,11 @@ def outer(ctx, exe, d, variant, hists, env=None, cmd=None, addrs=None):
         ctx.count(1, key=(variant, hist_line(h), str(env)), nontrivial=nontriv)
         ctx.cov["traces_validated_against_impl"] += 1
         mm = first_mismatch(mo, io)
+        if mm and env and "CHIBI_VERIF_GC" in env and isinstance(io, list) and explained_by_one_extra_collection(ctx, exe, h, io):
+            ctx.cov["forced_gc_histories_explained_by_one_extra_collection"] = ctx.cov.get("forced_gc_histories_explained_by_one_extra_collection", 0) + 1
+            ctx.note("forced-gc: the outcome of %s under %s is the model's outcome with one more collection inserted (schedule-sensitive "
+                     "history: a fileno used after its last port was dropped)" % (hist_line(h)[:160], env["CHIBI_VERIF_GC"]))
+            continue
         if mm:
             for sig, text in mm:
                 if sig == "history:crash" and env and "CHIBI_VERIF_GC" in env:
